@@ -3,7 +3,7 @@
 (* prim[c] says whether column c is primary.                                                 *)
 EXTENDS Integers, FiniteSets, Sequences
 RowsOf(M) == 1..Len(M)
-ColsOf(M) == 1..Len(M[1])
+ColsOf(M) == IF Len(M) = 0 THEN {} ELSE 1..Len(M[1])
 ColSet(M, r) == {c \in ColsOf(M) : M[r][c] = 1}
 Prim(M, prim) == {c \in ColsOf(M) : prim[c]}
 Useful(M, prim) == {r \in RowsOf(M) : ColSet(M, r) \cap Prim(M, prim) # {}}
